@@ -1,6 +1,6 @@
 (* Proofs about the state-module mirrors: C03 (check mode performs no managed action). *)
 From Coq Require Import List String Ascii Bool NArith Lia.
-From RashV Require Import Fs Octal StateMods Pacman StateSpec.
+From RashV Require Import Fs Octal OctalProofs StateMods Pacman StateSpec FsLemmas CopyProofs FileProofs TemplatePacmanProofs.
 Import ListNotations.
 Open Scope list_scope.
 
@@ -13,35 +13,31 @@ Proof. split; [reflexivity|]. unfold log1; cbn [slog]. rewrite filter_app. cbn. 
 Lemma unchanged_trans a b c : unchanged a b -> unchanged b c -> unchanged a c.
 Proof. intros [H1 H2] [H3 H4]. split; congruence. Qed.
 
-Ltac break_match :=
-  match goal with
-  | |- context [match ?x with _ => _ end] => destruct x eqn:?
-  | H : context [match ?x with _ => _ end] |- _ => destruct x eqn:?
-  end.
-
-Ltac simp_eqs :=
-  repeat match goal with
-  | H : Some _ = Some _ |- _ => inversion H; subst; clear H
-  | H : (_, _) = (_, _) |- _ => inversion H; subst; clear H
-  | H : Some _ = None |- _ => discriminate H
-  | H : None = Some _ |- _ => discriminate H
-  end.
-
 Lemma change_permissions_check s dest dm m s' ch :
   change_permissions s dest dm m true = Some (s', ch) -> s' = s.
 Proof. unfold change_permissions. repeat break_match; intros H; inversion H; reflexivity. Qed.
 
+Lemma open_dest_check e dest s s1 x : open_dest e dest true s = Some (s1, x) -> unchanged s s1.
+Proof.
+  unfold open_dest. repeat break_match; intro H; simp_eqs; auto using unchanged_refl, unchanged_tmp.
+Qed.
+Lemma content_phase_check dest c w dm s1 s2 ch : content_phase dest c w dm true s1 = Some (s2, ch) -> s2 = s1.
+Proof. unfold content_phase. repeat break_match; intro H; simp_eqs; reflexivity. Qed.
+Lemma mode_phase_check p dm ch1 s2 : snd (mode_phase p dm true ch1 s2) = s2.
+Proof.
+  unfold mode_phase. repeat (break_match; cbn [snd]); try reflexivity;
+    match goal with H : change_permissions _ _ _ _ true = Some _ |- _ => now apply change_permissions_check in H end.
+Qed.
+
 Lemma copy_file_check e p s : unchanged s (snd (copy_file e p true s)).
 Proof.
-  unfold copy_file. cbn [negb].
-  destruct (stat (sw s) (cp_dest p)) as [[c m|m|t]|] eqn:Hst; cbn [snd].
-  all: repeat (first [ apply unchanged_refl | apply unchanged_tmp
-                     | match goal with
-                       | H : change_permissions _ _ _ _ true = Some (_, _) |- _ =>
-                           apply change_permissions_check in H; subst
-                       end
-                     | progress simp_eqs
-                     | break_match; cbn [snd fst] in * ]).
+  unfold copy_file.
+  destruct (open_dest e (cp_dest p) true s) as [[s1 [[c dm]|]]|] eqn:Ho; cbn [snd]; try apply unchanged_refl.
+  - apply open_dest_check in Ho.
+    destruct (desired_content (cp_input p) (sw s1)); cbn [snd]; [|assumption].
+    destruct (content_phase (cp_dest p) c s0 dm true s1) as [[s2 ch1]|] eqn:Hc; cbn [snd]; [|assumption].
+    apply content_phase_check in Hc. subst. now rewrite mode_phase_check.
+  - now apply open_dest_check in Ho.
 Qed.
 
 Lemma template_check e p r s : unchanged s (snd (template e p r true s)).
@@ -89,3 +85,142 @@ Example c03_nonvacuous :
   fst (copy_file {| umask := 18; tmpmode := 420 |} p true {| sw := w; slog := [] |}) = ROk true
   /\ fst (copy_file {| umask := 18; tmpmode := 420 |} p false {| sw := w; slog := [] |}) = ROk true.
 Proof. split; vm_compute; reflexivity. Qed.
+
+
+(* ================================================================== C04 / C05 / C06 over run_task *)
+Definition wf_task (t : task) : Prop :=
+  match t with TFile p => fp_path p <> [] | _ => True end.
+
+Definition target (t : task) : path :=
+  match t with TCopy p => cp_dest p | TTemplate p _ => tp_dest p | TFile p => fp_path p end.
+
+Theorem fs_declared e t s ch s' :
+  run_task e t false s = (ROk ch, s') -> wf_task t -> no_alias t (sw s) = true ->
+  known_type_mismatch t (sw s) = false -> known_absent_dangling t (sw s) = false ->
+  declared_b t (sw s) (sw s') = true.
+Proof.
+  destruct t as [p|p [text|]|p]; cbn [run_task wf_task]; intros H W NA K1 K2.
+  - eapply copy_declared; eauto.
+  - eapply template_declared; eauto.
+  - pose proof (template_none e p false s) as E. rewrite H in E. discriminate E.
+  - eapply file_declared; eauto.
+Qed.
+
+Theorem fs_ok_means_unchanged e t s s' :
+  run_task e t false s = (ROk false, s') -> known_empty_create t (sw s) = false -> s' = s.
+Proof.
+  destruct t as [p|p [text|]|p]; cbn [run_task]; intros H K.
+  - eapply copy_ok_noop; eauto.
+  - eapply template_ok_noop; eauto.
+  - pose proof (template_none e p false s) as E. rewrite H in E. discriminate E.
+  - eapply file_ok_noop; eauto.
+Qed.
+
+Theorem fs_changed_means_differs e t s s' :
+  run_task e t false s = (ROk true, s') -> wf_task t ->
+  lstat (sw s') (target t) <> lstat (sw s) (target t) \/ stat (sw s') (target t) <> stat (sw s) (target t).
+Proof.
+  destruct t as [p|p [text|]|p]; cbn [run_task wf_task target]; intros H W.
+  - right. eapply copy_changed_differs; eauto.
+  - right. eapply template_changed_differs; eauto.
+  - pose proof (template_none e p false s) as E. rewrite H in E. discriminate E.
+  - eapply file_changed_differs; eauto.
+Qed.
+
+Theorem fs_idempotent e t s ch s' :
+  run_task e t false s = (ROk ch, s') -> wf_task t -> no_alias t (sw s) = true ->
+  forall l, run_task e t false {| sw := sw s'; slog := l |} = (ROk false, {| sw := sw s'; slog := l |}).
+Proof.
+  destruct t as [p|p [text|]|p]; cbn [run_task wf_task]; intros H W NA l.
+  - eapply copy_idempotent; eauto.
+  - eapply template_idempotent; eauto.
+  - pose proof (template_none e p false s) as E. rewrite H in E. discriminate E.
+  - eapply file_idempotent; eauto.
+Qed.
+
+Theorem fs_predicts e t s c1 s1 c2 s2 :
+  run_task e t true s = (ROk c1, s1) -> run_task e t false s = (ROk c2, s2) ->
+  no_alias t (sw s) = true -> known_empty_create t (sw s) = false -> c1 = c2.
+Proof.
+  destruct t as [p|p [text|]|p]; cbn [run_task]; intros H1 H2 NA K.
+  - eapply copy_predicts; eauto.
+  - eapply template_predicts; eauto.
+  - pose proof (template_none e p false s) as E. rewrite H2 in E. discriminate E.
+  - eapply file_predicts; eauto.
+Qed.
+
+Theorem fs_check_ok_means_real_noop e t s s1 c2 s2 :
+  run_task e t true s = (ROk false, s1) -> run_task e t false s = (ROk c2, s2) ->
+  no_alias t (sw s) = true -> known_empty_create t (sw s) = false -> c2 = false /\ s2 = s.
+Proof.
+  intros H1 H2 NA K. assert (false = c2) by (eapply fs_predicts; eauto). subst c2.
+  split; [reflexivity|]. eapply fs_ok_means_unchanged; eauto.
+Qed.
+
+(* a pass over a task list in which every task is already stable is a no-op reported ok *)
+Fixpoint run_all (e : env) (ts : list task) (s : st) : list result * st :=
+  match ts with
+  | [] => ([], s)
+  | t :: r => let '(res, s1) := run_task e t false s in
+              let '(out, s2) := run_all e r s1 in (res :: out, s2)
+  end.
+Definition stable (e : env) (t : task) (w : world) : Prop :=
+  forall l, run_task e t false {| sw := w; slog := l |} = (ROk false, {| sw := w; slog := l |}).
+Theorem pass_of_stable_tasks_is_noop e ts : forall w l,
+  Forall (fun t => stable e t w) ts ->
+  run_all e ts {| sw := w; slog := l |} = (map (fun _ => ROk false) ts, {| sw := w; slog := l |}).
+Proof.
+  induction ts as [|t r IH]; intros w l HF; [reflexivity|]. inversion HF as [|? ? Ht Hr]; subst.
+  cbn [run_all map]. rewrite (Ht l). rewrite (IH w l Hr). reflexivity.
+Qed.
+
+(* ------------------------------------------------------------------ refuted full statements *)
+Definition env0 := {| umask := 18; tmpmode := 420 |}.
+Definition w_empty : world := of_list [([], NDir 493)].
+
+(* K8: changed-iff is false for an empty copy onto an absent destination *)
+Lemma K8_changed_iff_refuted :
+  let t := TCopy {| cp_input := IContent ""; cp_dest := ["d"%string]; cp_mode := MNone |} in
+  let r := run_task env0 t false {| sw := w_empty; slog := [] |} in
+  fst r = ROk false /\ sw (snd r) ["d"%string] <> w_empty ["d"%string]
+  /\ known_empty_create t w_empty = true
+  /\ fst (run_task env0 (TCopy {| cp_input := IContent ""; cp_dest := ["d"%string]; cp_mode := MStr "0600" |}) true
+            {| sw := w_empty; slog := [] |}) = ROk true
+  /\ fst (run_task env0 (TCopy {| cp_input := IContent ""; cp_dest := ["d"%string]; cp_mode := MStr "0644" |}) false
+            {| sw := w_empty; slog := [] |}) = ROk false.
+Proof. cbv zeta. repeat split; try (vm_compute; reflexivity). vm_compute. discriminate. Qed.
+
+(* K9: declared state is false after a successful directory-on-file / touch-on-dir / absent-on-dangling *)
+Lemma K9_declared_refuted :
+  let wf := of_list [([], NDir 493); (["d"%string], NFile "x" 420)] in
+  let wd := of_list [([], NDir 493); (["d"%string], NDir 493)] in
+  let wl := of_list [([], NDir 493); (["d"%string], NLink ["nowhere"%string])] in
+  let tdir := TFile {| fp_path := ["d"%string]; fp_state := SDirectory; fp_mode := None |} in
+  let ttouch := TFile {| fp_path := ["d"%string]; fp_state := STouch; fp_mode := None |} in
+  let tabs := TFile {| fp_path := ["d"%string]; fp_state := SAbsent; fp_mode := None |} in
+  (fst (run_task env0 tdir false {| sw := wf; slog := [] |}) = ROk false /\ declared_b tdir wf wf = false
+   /\ known_type_mismatch tdir wf = true)
+  /\ (fst (run_task env0 ttouch false {| sw := wd; slog := [] |}) = ROk false /\ declared_b ttouch wd wd = false
+      /\ known_type_mismatch ttouch wd = true)
+  /\ (fst (run_task env0 tabs false {| sw := wl; slog := [] |}) = ROk false /\ declared_b tabs wl wl = false
+      /\ known_absent_dangling tabs wl = true).
+Proof. cbv zeta. repeat split; vm_compute; reflexivity. Qed.
+
+(* K19: sync of a dependency-installed package never reaches the declared state *)
+Lemma K19_sync_refuted :
+  let d := {| installed := ["a"%string]; explicit := []; upgradable := false |} in
+  let p := {| pp_names := ["a"%string]; pp_state := PSync; pp_update_cache := false; pp_upgrade := false |} in
+  let r := pacman p false {| pdb := d; plog := [] |} in
+  pr_changed (fst r) = true /\ pdb (snd r) = {| installed := ["a"%string]; explicit := []; upgradable := false |}
+  /\ pdeclared_b p (pdb (snd r)) = false /\ known_sync_dependency p d = true.
+Proof. cbv zeta. repeat split; vm_compute; reflexivity. Qed.
+
+(* non-vacuity of the positive theorems *)
+Example c04_nonvacuous :
+  let w := of_list [([], NDir 493); (["d"%string], NFile "old" 292)] in
+  let t := TCopy {| cp_input := IContent "new"; cp_dest := ["d"%string]; cp_mode := MStr "4755" |} in
+  fst (run_task env0 t false {| sw := w; slog := [] |}) = ROk true
+  /\ no_alias t w = true /\ known_type_mismatch t w = false /\ known_absent_dangling t w = false
+  /\ known_empty_create t w = false
+  /\ stat (sw (snd (run_task env0 t false {| sw := w; slog := [] |}))) ["d"%string] = Some (NFile "new" 2541).
+Proof. cbv zeta. repeat split; vm_compute; reflexivity. Qed.
